@@ -1,5 +1,10 @@
+pub mod disk;
 pub mod fntable;
+pub mod keykeeper;
+pub mod provision;
 pub mod rig;
+pub mod robust;
+pub mod telemetry;
 
 use crate::verif;
 
